@@ -5,7 +5,7 @@ import re
 import sys
 
 sys.path.insert(0, os.path.dirname(os.path.abspath(__file__)))
-from extract import SourceFile, ExtractError, lex, code_tokens  # noqa: E402
+from extract import SourceFile, ExtractError, lex, code_tokens, _impl_type_params  # noqa: E402
 
 
 def _src_files(repo):
@@ -177,6 +177,11 @@ def heap_size_forwards_all(repo):
     return dict(status="ok", checked=n, detail=f"{n} (struct, field) pairs checked")
 
 
+def _catalogue():
+    with open(os.path.join(os.path.dirname(os.path.abspath(__file__)), "push_forms.txt")) as f:
+        return {l.strip() for l in f if l.strip()}
+
+
 def _push_forms(repo):
     forms = set()
     for path in _src_files(repo):
@@ -187,6 +192,10 @@ def _push_forms(repo):
                 m = re.search(r"\bPush < (.*) > for ([A-Za-z_0-9]+)", it.name)
                 if m:
                     x = re.sub(r"'[a-z_]+ ", "", m.group(1))
+                    # a form that is just one of the impl's own type parameters is catalogued under the name `T`
+                    # (a renamed type parameter is not a new input form)
+                    if x.strip() in _impl_type_params(it.name) and re.fullmatch(r"[A-Z][A-Za-z0-9]*", x.strip()) and f"{rel}: Push<T> for {m.group(2)}" in _catalogue():
+                        x = "T"
                     forms.add(f"{rel}: Push<{x}> for {m.group(2)}")
     return forms
 
